@@ -28,6 +28,11 @@ def run_cli(case):
         requested = os.path.join(odir, "sub", "req.torrent")
         os.makedirs(os.path.join(odir, "sub"))
         expected_out = requested if opts["O"] else os.path.join(odir, name + ".torrent")
+        VALS = dict(globals()["VALS"])
+        if case.get("comment_val"):
+            VALS["C"] = case["comment_val"]
+        if case.get("source_val"):
+            VALS["S"] = case["source_val"]
         na = case.get("n_announce", 2)
         ann = VALS["A"][:na]
         want = {"announce": [hexs(x) for x in ann], "urllist": [hexs(x) for x in VALS["W"]],
@@ -73,6 +78,8 @@ def run_cli(case):
                     lines.append("http-seed =\n    " + "\n    ".join(VALS["H"]))
                 if opts["P"]:
                     lines.append("private = true")
+                elif case.get("explicit_false"):
+                    lines.append("private = false")
                 if opts["S"]:
                     lines.append("source = " + VALS["S"])
                 if opts["C"]:
@@ -85,6 +92,8 @@ def run_cli(case):
                     lines.append("out = " + requested)
                 if opts["G"]:
                     lines.append("align = true")
+                elif case.get("explicit_false"):
+                    lines.append("align = false")
                 ini = os.path.join(sbx, "cfg.ini")
                 with open(ini, "w", encoding="utf-8") as fh:
                     fh.write("\n".join(lines) + "\n")
@@ -116,9 +125,11 @@ def run_cli(case):
             with open(expected_out, "rb") as fh:
                 raw = fh.read()
             m = observe(raw)
-            rootn, _, _ = bdecode_strict(raw)
-            files = rootn.get(b"info").get(b"files")
-            m["has_pad"] = bool(files is not None and any(e.get(b"attr") is not None for e in files.val))
+            m["has_pad"] = False
+            if m.get("decodable") and m.get("has_info"):
+                rootn, _, _ = bdecode_strict(raw)
+                files = rootn.get(b"info").get(b"files")
+                m["has_pad"] = bool(files is not None and any(e.get(b"attr") is not None for e in files.val))
             rec["m"] = m
             rec["rest_sig"] = rest_sig(raw)
         return rec
